@@ -17,6 +17,9 @@ THEOREMS = ['C11_hit', 'C11_exactly_named', 'C11_miss', 'C11_other_namespace_mis
             'C11_dispatch_channels', 'C11_http_unambiguous', 'C11_http_fallback',
             'C11_pattern_order', 'C11_identical_pattern_rejected', 'C11_permutation_served']
 
+SRC_THEOREMS = ['C11_src_shape', 'C11_src_formats', 'C11_src_get_call_handles', 'C11_src_process_method',
+                'C11_src_last_segment']
+
 IMPORTS = 'From SpyneV Require Import Base.Prelude C11.Model.'
 
 # ------------------------------------------------------------------ building real applications from a spec
@@ -875,9 +878,10 @@ def run(check):
         'patterns it computed; theorem C11_http_unambiguous covers exactly the requests for which that order is irrelevant',
         'SyncAuxProc is the auxiliary processor (ThreadAuxProc runs the same contexts on a thread pool)',
     ]
-    check.regen([])
+    check.regen(['routekeys'])
     check.check_sources()
     check.prove('Props.C11', THEOREMS)
+    check.prove('Props.C11_src', SRC_THEOREMS)
     stats = {}
     ccases, dcases = [], []
     for label, spec in fixed_specs():
